@@ -2,9 +2,10 @@
    dense_is_smaller, maybe_promote / rebase / demote_to_sparse, Column
    (Int/Float/String/Bool/Other, promote_to_other), ColumnStore
    (set_property, remove_property, clear_row, get_property, get_property_keys,
-   get_column(k).is_dense()/len()).  Faithful to the code as written: usize
-   arithmetic that overflows (a panic in a build with overflow checks) is an
-   explicit [None] outcome.  Executable; no proofs here.
+   get_column(k).is_dense()/len()) -- the code as repaired (the three span
+   computations saturate instead of overflowing).  An operation that could panic
+   (count -= 1 below zero) has an explicit [None] outcome.  Executable; no proofs
+   here.
 
    Representation choices:
    - FxHashMap<usize,T> is an association list with unique keys (insert =
@@ -164,55 +165,59 @@ Section ColumnData.
     | (k, _) :: r => upd (build_pres r mn init) (N.to_nat (k - mn)) true
     end.
 
-  (* maybe_promote on a sparse map; None = panic (max - min + 1 overflows) *)
-  Definition maybe_promote (m : list (N * T)) : option (cdata T) :=
+  Definition sat_add (a b : N) : N := N.min (a + b) usize_max.
+
+  (* maybe_promote on a sparse map *)
+  Definition maybe_promote (m : list (N * T)) : cdata T :=
     let len := nlen m in
-    if (len <? promote_min_entries) || negb (is_pow2 len) then Some (Sparse m)
+    if (len <? promote_min_entries) || negb (is_pow2 len) then Sparse m
     else
       match m with
-      | [] => Some (Sparse m)
+      | [] => Sparse m
       | (k0, _) :: _ =>
           let mn := min_key m k0 in
           let mx := max_key m k0 in
-          if usize_max <=? mx - mn then None
+          let span := sat_add (mx - mn) 1 in          (* (max - min).saturating_add(1) *)
+          if negb (dense_is_smaller span len elem) then Sparse m
           else
-            let span := mx - mn + 1 in
-            if negb (dense_is_smaller span len elem) then Some (Sparse m)
-            else
-              let sp := N.to_nat span in
-              Some (Dense mn (build_vals m mn (repeat dflt sp)) (build_pres m mn (repeat false sp)) len)
+            let sp := N.to_nat span in
+            Dense mn (build_vals m mn (repeat dflt sp)) (build_pres m mn (repeat false sp)) len
       end.
 
-  (* set; None = panic *)
-  Definition cset (d : cdata T) (idx : N) (v : T) : option (cdata T) :=
+  Definition cset (d : cdata T) (idx : N) (v : T) : cdata T :=
     match d with
     | Sparse m => maybe_promote (ains m idx v)
     | Dense base vals pres count =>
         if (base <=? idx) && (idx - base <? nlen vals) then
           let n := N.to_nat (idx - base) in
-          Some (Dense base (upd vals n v) (upd pres n true) (if bitn pres n then count else count + 1))
+          Dense base (upd vals n v) (upd pres n true) (if bitn pres n then count else count + 1)
         else
           let entries := count + 1 in
-          let fallback := Some (Sparse (ains (dense_entries base vals pres) idx v)) in
+          let fallback := Sparse (ains (dense_entries base vals pres) idx v) in
           if base <=? idx then
-            if usize_max <=? idx - base then None           (* idx - base + 1 *)
-            else
-              let new_span := idx - base + 1 in
-              if dense_is_smaller new_span entries elem then
-                let n := N.to_nat (idx - base) in
-                let sp := N.to_nat new_span in
-                Some (Dense base (upd (resize vals sp dflt) n v) (upd (resize pres sp false) n true) (count + 1))
-              else fallback
+            let new_span := sat_add (idx - base) 1 in       (* (idx - base).saturating_add(1) *)
+            if dense_is_smaller new_span entries elem then
+              let n := N.to_nat (idx - base) in
+              let sp := N.to_nat new_span in
+              Dense base (upd (resize vals sp dflt) n v) (upd (resize pres sp false) n true) (count + 1)
+            else fallback
           else
-            if usize_max <? base + nlen vals then None      (* *base + values.len() *)
-            else
-              let new_span := base + nlen vals - idx in
-              if dense_is_smaller new_span entries elem then
-                let shift := N.to_nat (base - idx) in
-                Some (Dense idx (upd (repeat dflt shift ++ shifted_vals vals pres) 0 v)
-                            (upd (repeat false shift ++ shifted_pres vals pres) 0 true) (count + 1))
-              else fallback
+            let new_span := sat_add (base - idx) (nlen vals) in   (* (base - new_base).saturating_add(values.len()) *)
+            if dense_is_smaller new_span entries elem then
+              let shift := N.to_nat (base - idx) in
+              Dense idx (upd (repeat dflt shift ++ shifted_vals vals pres) 0 v)
+                    (upd (repeat false shift ++ shifted_pres vals pres) 0 true) (count + 1)
+            else fallback
     end.
+
+  (* the three span computations as they were before the repair: plain usize
+     arithmetic, None = "attempt to add with overflow" *)
+  Definition orig_grow_span (idx base : N) : option N :=
+    if usize_max <=? idx - base then None else Some (idx - base + 1).
+  Definition orig_rebase_span (base len idx : N) : option N :=
+    if usize_max <? base + len then None else Some (base + len - idx).
+  Definition orig_promote_span (mx mn : N) : option N :=
+    if usize_max <=? mx - mn then None else Some (mx - mn + 1).
 End ColumnData.
 
 (* ---- PropertyValue, as far as the column dispatch distinguishes it ---- *)
@@ -259,10 +264,10 @@ Definition spill (c : column) : list (N * pv) :=
 
 Definition column_set (c : column) (idx : N) (v : pv) : option column :=
   match c, v with
-  | CInt d, PInt z => option_map CInt (cset 0%Z 8 d idx z)
-  | CFloat d, PFloat b => option_map CFloat (cset 0 8 d idx b)
-  | CStr d, PStr s => option_map CStr (cset 0 24 d idx s)
-  | CBool d, PBool b => option_map CBool (cset false 1 d idx b)
+  | CInt d, PInt z => Some (CInt (cset 0%Z 8 d idx z))
+  | CFloat d, PFloat b => Some (CFloat (cset 0 8 d idx b))
+  | CStr d, PStr s => Some (CStr (cset 0 24 d idx s))
+  | CBool d, PBool b => Some (CBool (cset false 1 d idx b))
   | COther m, _ => Some (COther (ains m idx v))
   | _, _ => Some (COther (ains (spill c) idx v))
   end.
@@ -375,10 +380,9 @@ Definition spec_run (ops : list op) : amap := fold_left spec_step ops aempty.
 Definition abs (s : store) : amap :=
   fun r k => match find_col s k with Some c => column_lookup c r | None => None end.
 
-(* the one class of inputs on which the code panics (overflow checks on):
-   a set_property at row usize::MAX *)
-Definition Known_C30 (ops : list op) : bool :=
-  existsb (fun o => match o with SetP r _ _ => usize_max <=? r | _ => false end) ops.
+(* row indices are usize *)
+Definition row_of (o : op) : N := match o with SetP r _ _ => r | RemoveP r _ => r | ClearRow r => r end.
+Definition rows_ok (ops : list op) : bool := forallb (fun o => row_of o <=? usize_max) ops.
 
 (* ---- correspondence ---- *)
 (* macro operations keep long histories short to write down *)
